@@ -481,7 +481,17 @@ class Graph:
             fk, fv = self.raw_or_node(n["f"])
             args = [self.raw_or_node(a) for a in n.get("args", [])]
             kw = [(name, self.raw_or_node(a)) for name, a in n.get("kw", [])]
-            obj = cls(fv, *[v for _, v in args], **{name: v for name, (_, v) in kw})
+            if k == "funapp" and not args and kw and fk == "raw" and nid % 2 == 0 and not n.get("factory"):
+                # `FunctionApplication.lift(g, **overrides)`: g has named parameters with defaults of its own, every
+                # one of them overridden by a keyword (plain constants — falsy ones included — or evaluatables)
+                names = [name for name, _ in kw]
+                src = "def _lifted({ps}):\n    return _fn({call})\n".format(
+                    ps=", ".join(f"{p}='UNUSED-DEFAULT'" for p in names), call=", ".join(f"{p}={p}" for p in names))
+                ns = {"_fn": fv}
+                exec(src, ns)
+                obj = FunctionApplication.lift(ns["_lifted"], **{name: v for name, (_, v) in kw})
+            else:
+                obj = cls(fv, *[v for _, v in args], **{name: v for name, (_, v) in kw})
             if fk == "raw":
                 self.built[n["f"]] = self.reg(obj.func, n["f"])
             for (kind, _), a, real in zip(args, n.get("args", []), obj.arguments.args.args):
@@ -809,6 +819,15 @@ def run_op(g, op):
     name = op["op"]
     if name in ("evaluate", "validate", "keys", "explain", "transform", "fingerprint", "set_get"):
         return run_eval_op(g, op)
+    del CALL_LOG[:]
+    r = _run_mutator(g, op, name)
+    if CALL_LOG and name not in ("reset", "script"):
+        # registering, deriving, re-dispatching … are construction steps: user code they ran is reported (C06)
+        r["calls"] = [[nm, enc(list(a)), [[k, enc(v)] for k, v in sorted(kw.items())]] for nm, a, kw in CALL_LOG]
+    return r
+
+
+def _run_mutator(g, op, name):
     try:
         if name == "register":
             ov = g.overloaded(op["ov"])
